@@ -18,6 +18,21 @@
 // atomic with respect to each other, so interleavings at whole-callback granularity are all there
 // are). The engine itself starts no goroutine: application callbacks and handlers run synchronously
 // on the caller's stack (engine.go has no `go` statement), so nothing else needs to be owned.
+//
+// Oracle: black box (callback log, wires on the face, handler invocations). The white-box hook
+// (hooks/std/engine/basic/verif_c20.go: trie dumps, node→root chains) is used for the canonical
+// state and to give violations root-cause-level keys (which kind of event made a pending
+// Interest unreachable from the PIT root / a handler vanish from the FIB); a violation is only
+// ever raised by an externally visible event (a Data that does not resolve a pending Interest it
+// satisfies, a second callback, a handler not invoked, ...).
+//
+// Keys seen on the tree this was built against and their root causes (patches in fixes/):
+//
+//	C20.all  "...pruned an emptied ancestor node that still had children (DeleteIf)"   01 NameTrie.DeleteIf ignores children
+//	C20.all  "...cut off by a Nack arrival for a different ... name (onNack Delete)"   02 onNack uses Delete()
+//	C20.once "callback invoked twice: Nack result, then Timeout result"                02 onNack leaves the resolved entries in the node
+//	C20.all  "...earlier Interest whose own node had already been detached (stale...)" 03 Delete/DeleteIf on a detached node prune by key
+//	C20.lpm  "...DetachHandler of a different ... prefix dropped that handler..."      04 DetachHandler uses Delete()
 package main
 
 import (
@@ -180,6 +195,7 @@ type inst struct {
 	curCalls []*hcall
 	viol     []report.Violation
 	seen     map[string]bool
+	hist     []string
 }
 
 func (in *inst) bad(clause, key, detail string) {
@@ -278,9 +294,13 @@ type cfgT struct {
 	inNames   []string
 	inLives   []int
 	maxIn     int
+	audit     bool // canon audit: no de-duplication (the history is part of the canonical state)
 }
 
-type sys struct{ c cfgT }
+type sys struct {
+	c    cfgT
+	name string
+}
 
 func (s *sys) New() any {
 	in := &inst{face: &hFace{}, tm: &hTimer{now: time.Unix(1000, 0), curOwner: -1},
@@ -365,6 +385,11 @@ func (s *sys) Ops(i any) []explore.Op {
 	for _, h := range in.calls {
 		add("Reply(h%d)", h.id)
 	}
+	if _, worker := explore.IsWorker(); !worker {
+		// replay mode only: the quiescence closure as an explicit last event, so that violations found
+		// by CheckState can be re-executed with `./check C20 --replay <file>`
+		add("Quiesce")
+	}
 	return ops
 }
 
@@ -440,6 +465,7 @@ func (s *sys) satisfies(x *intr, dname string, d *dataPkt) bool {
 // step executes one event on the real engine and evaluates the oracle for it.
 func (s *sys) step(in *inst, op string) []report.Violation {
 	in.viol = nil
+	in.hist = append(in.hist, op)
 	in.curOp = op
 	in.curKind = op
 	if i := strings.Index(op, "("); i > 0 {
@@ -594,6 +620,9 @@ func (s *sys) step(in *inst, op string) []report.Violation {
 			}
 			in.bad("C20.lpm", k, fmt.Sprintf("Interest %s went to %s, longest-prefix match over the attached prefixes requires %s", name, got, want))
 		}
+	case "Quiesce":
+		in.hist = in.hist[:len(in.hist)-1]
+		return s.CheckState(in)
 	case "Reply":
 		var id int
 		fmt.Sscanf(a[0], "h%d", &id)
@@ -733,6 +762,9 @@ func (s *sys) CheckState(i any) []report.Violation {
 			in.bad("C20.once", "callback never invoked although every timer has fired and run", fmt.Sprintf("%s expressed, all timers fired and run, callback count 0", x.desc()))
 		}
 	}
+	for i := range in.viol {
+		in.viol[i].Replay = map[string]any{"config": s.name, "ops": append(append([]string{}, in.hist...), "Quiesce")}
+	}
 	return in.viol
 }
 
@@ -848,6 +880,9 @@ func (s *sys) Canon(i any) string {
 	}
 	// call ids are positional (Reply(h<id>)), keep list order
 	fmt.Fprintf(&b, "#C%s#i%d", strings.Join(cs, "|"), in.nIn)
+	if s.c.audit {
+		b.WriteString("#H" + strings.Join(in.hist, ";"))
+	}
 	return b.String()
 }
 
@@ -889,12 +924,13 @@ func build(name string) explore.System {
 	if n, _ := fmt.Sscanf(name, "%s i=%d in=%d", &u, &mi, &min); n != 3 {
 		report.Fatal("bad config name %q", name)
 	}
-	c, ok := configs[u]
+	c, ok := configs[strings.TrimPrefix(u, "audit-")]
 	if !ok {
 		report.Fatal("unknown config %q", name)
 	}
 	c.maxInt, c.maxIn = mi, min
-	return &sys{c: c}
+	c.audit = strings.HasPrefix(u, "audit-")
+	return &sys{c: c, name: name}
 }
 
 func main() {
@@ -905,9 +941,14 @@ func main() {
 				n string
 				d int
 			}
-			l := []e{{"names i=4 in=0", 7}, {"siblings i=4 in=0", 7}, {"race i=4 in=0", 8}, {"digest i=3 in=0", 7}, {"handler i=0 in=2", 8}, {"mixed i=2 in=1", 7}}
+			// cheap configurations first: what they do not use of their share of the budget goes to the rest
+			l := []e{{"handler i=0 in=2", 8}, {"digest i=3 in=0", 7}, {"mixed i=2 in=1", 7}, {"race i=4 in=0", 8}, {"names i=4 in=0", 7}, {"siblings i=4 in=0", 7}}
 			if th {
-				l = []e{{"names i=5 in=0", 10}, {"siblings i=5 in=0", 10}, {"race i=5 in=0", 10}, {"digest i=4 in=0", 8}, {"handler i=0 in=3", 12}, {"mixed i=3 in=2", 9}}
+				// audit-*: the same universes searched WITHOUT canonical-state de-duplication to a smaller
+				// depth; a violation key that only shows up there would mean the canonical form merges
+				// states with different futures.
+				l = []e{{"handler i=0 in=3", 12}, {"digest i=4 in=0", 8}, {"mixed i=3 in=2", 9}, {"race i=5 in=0", 10}, {"names i=5 in=0", 10}, {"siblings i=5 in=0", 10},
+					{"audit-race i=3 in=0", 5}, {"audit-names i=3 in=0", 4}, {"audit-handler i=0 in=2", 5}}
 			}
 			var c []explore.Config
 			for _, x := range l {
@@ -919,7 +960,7 @@ func main() {
 			if th {
 				return 25 * time.Minute
 			}
-			return 100 * time.Second
+			return 75 * time.Second
 		},
 		Rule: "BFS over event histories (Express with name/CanBePrefix/lifetime/implicit digest, Data and Nack arrivals, clock advances, timer Fire / RunFired as separate events, Attach/DetachHandler, incoming Interests, Reply) executed on a real basic.Engine with a harness face and a harness timer; every callback invocation is checked when it happens (at most once, Data satisfies the Interest, timeout not before lifetime, Nack only for its name), every Data arrival must resolve every pending Interest it satisfies, every incoming Interest must reach the handler at the longest attached prefix, Reply must transmit before and must not transmit after the deadline; after every transition the quiescence closure (all timers fire and run) must leave every Interest resolved exactly once",
 		Assumptions: []string{
